@@ -1275,6 +1275,17 @@ func init() {
 		}
 		return Slice{A: out}
 	}
+	// crypto/rand.Read: drand uses it for identifiers that only need to be unique (callback ids, nonces): the
+	// model fills the buffer with distinct concrete bytes per call
+	reg("crypto/rand.Read", func(p *Path, fn *ssa.Function, a []Value) Value {
+		sl := a[0].(Slice)
+		n, _ := p.natives["cryptorand"].(int)
+		p.natives["cryptorand"] = n + 1
+		for i := range sl.A {
+			sl.A[i] = BVC(uint64((n*131+i*7+0x5a)&0xff), 8)
+		}
+		return Tuple{BVC(uint64(len(sl.A)), 64), Iface{}}
+	})
 	reg("math/rand.Perm", permFn)
 	reg("math/rand/v2.Perm", permFn)
 }
